@@ -25,7 +25,7 @@ ASSUMPTIONS = [
     "scene is compared with DataTree.equals on the last step's scene; processed data with DataTree.equals on the detector's data tree after the last step",
 ]
 COMPONENTS = {"real": ["pyxel exposure/run_pipeline/containers/ModelGroup debug capture", "xarray"], "stub": []}
-BUDGET = {"quick": {"n": 480, "wall": 100, "determinism": 4}, "thorough": {"n": 16000, "wall": 1500, "determinism": 12}}
+BUDGET = {"quick": {"n": 480, "wall": 100, "determinism": 4}, "thorough": {"n": 24000, "wall": 1500, "determinism": 12}}
 REQUIRED_REACH = ["rerun_with_other_start_time", "clusters_edited_in_place", "inplace_photon_add", "clusters_written", "debug_runs", "photon3d_runs", "flat_layout_compared", "scene_runs", "data_runs", "image_dtype:uint8", "image_dtype:uint64", "float_dtype:float16", "multi_step"]
 
 IMG = ("uint8", "uint16", "uint32", "uint64")
